@@ -59,6 +59,14 @@ def decode_case(raw):
             "prog": [decode_step(sel, t, bs, nd) for sel, t in prog], "condition": CONDITIONS[cond % len(CONDITIONS)],
             "victims": damage.decode_devices(dints, cfg, 2, allow_silent=True), "seed": dseed, "command": cmdi % len(ALLCMDS),
             "pending": [gen.decode_fs(t, bs, nd) for _, t in prog[:3]]}
+    if ALLCMDS[case["command"]][0] == "fix" and (dseed >> 3) % 3 == 0:
+        # a recorded (preferably empty) file whose name now is a symbolic link, dangling or to another file of the disk
+        ld = (dseed >> 9) % nd
+        case["init"] = case["init"] + [{"op": "create", "disk": ld, "name": gen.name_of(dseed >> 5), "size": 0, "cseed": 0, "kind": 0}]
+        case["prog"] = case["prog"] + [{"op": "sync"}]
+        case["condition"] = "pending"
+        case["pending"] = case["pending"] + [{"op": "file_to_link", "disk": ld, "fi": (dseed >> 11) % 8, "prefer_empty": True,
+                                             "target_fi": (dseed >> 14) % 8 if dseed & 0x20000 else None}]
     if ALLCMDS[case["command"]][0] == "touch":
         # touch acts on time-stamps with a zero sub-second part: make them frequent, in synced files, in files changed or
         # re-stamped since the last sync (whole seconds again) and in files the content file does not know
